@@ -36,7 +36,7 @@ let () = iter_lines (fun line ->
     let kk = nat_of_int (int_of_string k) in
     let s0 = init kk progs in
     let tick = nat_of_int nt in
-    let step' s t = if t = tick && int_of_z (clock s) >= bound then None else step s t in
+    let step' s t = if t = tick && int_of_z (clock s) >= bound then None else if spin_idle s t then None else step s t in
     let tids = List.init (nt + 1) nat_of_int in
     let (terms, nstates, ntrans, trunc) = explore step' tids (fun t -> t <> tick) s0 (int_of_string maxst) in
     let outs = Hashtbl.create 64 in
